@@ -1,2 +1,44 @@
-(* C09 - theorems follow in this commit series *)
-From TW Require Import Bytes.
+(* C09 - evaluation never crashes: every runtime fault becomes a Textwire error.
+   Model/Eval.v mirrors evaluator.go with an explicit Panic outcome at every place where the Go
+   code would panic (nil Expression / Statement, unchecked assertions); the built-ins have no
+   panic outcome at all (their guards are part of Model/Builtins.v and are compared with the code
+   by the correspondence run on boundary counts and wrong-kind arguments).
+   The hypothesis wf_program is extracted and evaluated on every program the parser returns. *)
+From TW Require Import Bytes Values Ast Builtins Eval Wf NoPanic.
+
+Theorem C09_render_never_panics cx p data :
+  wf_program p = true -> render_program cx p data <> RenderPanic.
+Proof. exact (render_no_panic cx p data). Qed.
+Print Assumptions C09_render_never_panics.
+
+(* the same at every level of the evaluator, for every amount of fuel and every environment *)
+Theorem C09_expression_never_panics cx fuel en e :
+  wf_expr e = true -> eval_expr cx fuel en e <> Panic.
+Proof. exact (eval_expr_np cx fuel en e). Qed.
+Print Assumptions C09_expression_never_panics.
+
+Theorem C09_statement_never_panics cx fuel en s :
+  wf_stmt s = true -> eval_stmt cx fuel en s <> Panic.
+Proof. exact (proj1 (stmt_np cx fuel) en s). Qed.
+Print Assumptions C09_statement_never_panics.
+
+(* operators on any two values: a value or an error, never a panic (modulo / division by zero,
+   mixed types, unknown operators included) *)
+Theorem C09_operators_total ln op l r :
+  eval_infix_op ln op l r <> Panic /\ eval_prefix_op ln op l <> Panic /\ eval_postfix_op ln op l <> Panic.
+Proof. exact (conj (infix_np ln op l r) (conj (prefix_np ln op l) (postfix_np ln op l))). Qed.
+Print Assumptions C09_operators_total.
+
+(* property access with any name, the empty one included *)
+Theorem C09_property_access_total ln m k : obj_index ln m k <> Panic.
+Proof. exact (obj_index_np ln m k). Qed.
+Print Assumptions C09_property_access_total.
+
+(* non-vacuity: a program with every statement kind of the evaluator is well-formed *)
+Example C09_wf_example :
+  wf_program (mkProgram
+    [SHtml 1 (bs "a"); SExpr (EInfix 1 (bs "%") (EInt 1 5) (EInt 1 0));
+     SEach 1 (bs "x") (EInt 1 5) [SExpr (EDot 1 (EIdent 1 (bs "x")) (EIdent 1 (bs "k")))] None;
+     SFor 1 SNull ENull SNull [SBreak] None;
+     SIf 1 (EIndex 1 (EObj 1 []) (EStr 1 [])) [] [] None] None [] [] []) = true.
+Proof. reflexivity. Qed.
